@@ -13,7 +13,7 @@ RULE = (
     "history = generated mesh x pinned-site set {none, terminal sites, arbitrary sites} x fix_psi on/off x sequence of 1..6 "
     "(thorough 1..12) vector potentials drawn from {new smooth field, repeat of the previous one, zeros, scaled previous}; "
     "the invariant is checked after every operation; a second family drives real TDGLSolver.update calls (screening / "
-    "time-dependent field) and compares solver.operators with a rebuild; non-trivial = >= 2 distinct potentials and a "
+    "time-dependent field, optionally starting from a non-zero induced potential as a seeded run does) and compares solver.operators with a rebuild after every step and the potential in use at every screening iteration; non-trivial = >= 2 distinct potentials and a "
     "non-empty pinned set; distinct by spec hash"
 )
 ASSUMPTIONS = [
@@ -60,7 +60,9 @@ def _solver_case(draw, tier):
     fu = draw(st.sampled_from(gen.FIELD_UNITS))
     cu = draw(st.sampled_from(gen.CURRENT_UNITS))
     fld = draw(gen.field(dev, fu, kinds=("ramp", "ramp", "constant", "ramp_gauge"), bmax=0.3 if scr else 0.5))
-    return dict(kind="solver", device=dev, field=fld, currents=draw(gen.currents(dev, cu, kinds=("dict",))),
+    # the first update may start from a non-zero induced potential, as a run seeded with a screened solution does
+    ind0 = dict(coefs=draw(meshgen.field_coefs(2)), amp=draw(gen.logu(-4, -1))) if scr and draw(st.booleans()) else None
+    return dict(kind="solver", device=dev, field=fld, currents=draw(gen.currents(dev, cu, kinds=("dict",))), induced0=ind0,
                 options=dict(dt_c=draw(gen.rf(0.05, 0.4)), adaptive=False, include_screening=scr, screening_tolerance=1e-3,
                              field_units=fu, current_units=cu, nsteps=draw(st.integers(2, 6)), save_every=1,
                              terminal_psi=draw(st.sampled_from([0.0, 0.0, None]))))
@@ -170,7 +172,7 @@ def _check_solver(spec, res):
     dev = build.make_device_or_refuse(spec["device"])
     opts = build.make_options(spec["options"], dev)
     res.label("solver history", "screening" if opts.include_screening else "time-dependent field only")
-    solver = build.make_solver(dev, opts, applied_vector_potential=build.make_vector_potential(spec["field"], dev, opts.field_units),
+    solver = build.make_solver(dev, opts, applied_vector_potential=build.make_vector_potential(spec["field"], dev, opts.field_units, opts.solve_time),
                              terminal_currents=build.make_currents(spec["currents"]))
     fixed = solver.operators.fixed_sites
     names = {"dt": 1}
@@ -182,15 +184,27 @@ def _check_solver(spec, res):
                 induced_vector_potential=np.zeros((ne, 2)))
     if solver.dynamic_vector_potential:
         vals["applied_vector_potential"] = solver.current_A_applied
+    if spec.get("induced0") and opts.include_screening:
+        c = spec["induced0"]
+        ec = dev.mesh.edge_mesh.centers
+        vals["induced_vector_potential"] = float(c["amp"]) * np.stack([meshgen.make_field(c["coefs"][0], ec), meshgen.make_field(c["coefs"][1], ec)], axis=1)
+        res.label("starts from a non-zero induced potential")
     t = 0.0
     dt = opts.dt_init
     seen = []
     iterates = []
+    stale = []
     orig_giv = solver.get_induced_vector_potential
 
     def giv(current_density, A_induced_vals, velocity):
         # the iterate the operators were refreshed with in this screening iteration
         iterates.append(np.array(A_induced_vals[-1]))
+        # ... and the operators this iteration's psi and currents were computed with must be the ones for that iterate
+        in_use = np.array(solver.operators.link_exponents)
+        want_now = np.array(solver.current_A_applied) + iterates[-1]
+        d = float(np.abs(in_use - want_now).max())
+        if d > 1e-14 * max(1.0, float(np.abs(want_now).max())):
+            stale.append((len(iterates) - 1, d))
         return orig_giv(current_density, A_induced_vals, velocity)
 
     solver.get_induced_vector_potential = giv
@@ -222,6 +236,9 @@ def _check_solver(spec, res):
             want = want + iterates[-1]
             res.label("screening iterations>=3" if len(iterates) >= 3 else "screening iterations<3")
         iterates.clear()
+        if stale:
+            res.fail("C10.solver.stale_iteration", f"step {step}, screening iteration {stale[0][0]}: the operators in use differ from those of the current applied + induced "
+                     f"iterate by {stale[0][1]:.3e}")
         if np.abs(A - want).max() > 1e-14 * max(1.0, np.abs(want).max()):
             res.fail("C10.solver.stale_potential", f"step {step}: operators use a potential that differs from the current applied (+ latest induced iterate) potential by {np.abs(A - want).max():.3e}")
         if res.violations:
